@@ -148,6 +148,19 @@ func runC04(c c04Case, r *rep.Report) (key, msg string, stats map[string]int64) 
 						key, msg = "c04-closed-session-still-addressable", fmt.Sprintf("request naming closed session answered %d %q", res.Status, res.Body)
 						return
 					}
+					// the same for a data request and for a WebSocket upgrade request naming it
+					res = w.Do(rig.ReqSpec{Method: "POST", Target: "/engine.io/?EIO=4&transport=polling&sid=" + clients[n].Sid, Header: map[string][]string{"Content-Type": {"text/plain"}}, Body: []byte("4late")})
+					if res.Status != 400 || !strings.Contains(string(res.Body), `"code":1`) {
+						key, msg = "c04-closed-session-still-addressable", fmt.Sprintf("data request naming closed session answered %d %q", res.Status, res.Body)
+						return
+					}
+					res = w.Do(rig.ReqSpec{Method: "GET", Target: "/engine.io/?EIO=4&transport=websocket&sid=" + clients[n].Sid, Header: map[string][]string{
+						"Connection": {"Upgrade"}, "Upgrade": {"websocket"}, "Sec-WebSocket-Version": {"13"}, "Sec-WebSocket-Key": {"dGhlIHNhbXBsZSBub25jZQ=="}}})
+					stats["upgrade_requests_naming_closed_session"]++
+					if res.Status != 400 || !strings.Contains(string(res.Body), `"code":1`) || !strings.Contains(string(res.Body), "Session ID unknown") {
+						key, msg = "c04-closed-session-still-addressable", fmt.Sprintf("WebSocket upgrade request naming closed session answered %d %q (err %v)", res.Status, res.Body, res.Err)
+						return
+					}
 				case "window":
 					// a session that dies while its handshake is being completed
 					w.Gate.Arm("server.Handshake.afterNewSocket", 1)
